@@ -9,6 +9,7 @@ from jaqalpaq.core.result import ExecutionResult, Readout
 from jaqalpaq.core.result import ProbabilisticSubcircuit
 from jaqalpaq.core.algorithm.walkers import TraceVisitor, DiscoverSubcircuits
 from jaqalpaq import _verif_trace
+from jaqalpaq.error import JaqalError
 
 
 class AbstractJob:
@@ -45,6 +46,8 @@ class AbstractBackend:
         """
 
         registers = circ.fundamental_registers()
+        if len(registers) == 0:
+            raise JaqalError("Cannot execute a circuit without a register")
 
         try:
             (register,) = registers
